@@ -225,6 +225,53 @@ def check_case(b, bp, ref, mi, tree, res: Result, w, rng):
                         res.violation("mismatch-not-kept", sig0 + ["not-re-emitted-verbatim"],
                                       f"{mi.full_name}: non-fitting record {bogus.hex()} for field {fi.number} ({fi.cls_key()}) is not re-emitted verbatim: {out[4].hex()[:160]}", ww)
 
+    # (3b) a non-fitting occurrence DIRECTLY AFTER a fitting occurrence of the same field (the per-field decision must
+    # be taken per occurrence), and tags whose varint exceeds 32 bits with low bits that look like a known field
+    if (only is None and w.get("tag") in ("empty", "maximal")) or only in ("wtseq", "bigtag"):
+        for fi in mi.fields:
+            if fi.label == "map" or (fi.kind == "message" and fi.wkt is None and fi.label != "repeated"):
+                continue
+            if only in ("wtseq", "bigtag") and fi.number != w.get("number"):
+                continue
+            if only != "bigtag":
+                good_wt = 2 if (fi.kind in ("message", "string", "bytes") or fi.wkt) else spec.wire_type_of(fi.kind)
+                if fi.kind == "message" or fi.wkt:
+                    continue  # a fitting message payload needs a valid sub-encoding: left to the matrix above
+                good = _payload_for(good_wt, fi.number, rng) if good_wt != 2 else spec.enc_tag(fi.number, 2) + b"\x02ok"
+                for wt in (0, 1, 2, 5):
+                    if _fits(fi, wt):
+                        continue
+                    bogus = _payload_for(wt, fi.number, rng)
+                    data = good + bogus + good
+                    ww = dict(w, mal="wtseq", number=fi.number, wt=wt)
+                    res.note("wiretype_sequences")
+                    only_good = _decode(b, bp, mi, cls, good + good)
+                    out = judge_generic(data, f"wiretype-seq-{wt}", ww)
+                    if out[0] == "raised":
+                        if only_good[0] == "ok":
+                            res.violation("mismatch-not-isolated", [fi.cls_key(), f"wt{wt}", "after-fitting-occurrence:raised:" + out[1]],
+                                          f"{mi.full_name}: field {fi.number} fitting, then wire type {wt}, then fitting again made parse raise {out[1]}; input {data.hex()[:160]}", ww)
+                        continue
+                    if only_good[0] == "ok" and out[2] is not None and only_good[2] is not None and diff_trees(b, mi, only_good[2], out[2]):
+                        ds = diff_trees(b, mi, only_good[2], out[2])
+                        res.violation("mismatch-alters-known", [fi.cls_key(), f"wt{wt}", "after-fitting-occurrence"],
+                                      f"{mi.full_name}: a non-fitting occurrence (wire type {wt}) right after a fitting one of field {fi.number} changed it: {ds[0].short()}; input {data.hex()[:160]}", ww)
+            # tag varints beyond 32 bits: the number is not a legal field number; whatever the decoder does, it must not
+            # land in a known field
+            if only != "wtseq" and fi.number < 2**28:
+                for hi in (1 << 29, 1 << 31, 1 << 40):
+                    wt0 = 2 if (fi.kind in ("message", "string", "bytes") or fi.wkt or fi.label == "map") else spec.wire_type_of(fi.kind)
+                    body = _payload_for(wt0, 1, rng)[1:] if wt0 != 2 else b"\x03bad"
+                    data = e0 + spec.enc_varint(((hi + fi.number) << 3) | wt0) + body
+                    ww = dict(w, mal="bigtag", number=fi.number, hi=hi)
+                    res.note("oversized_tags")
+                    out = judge_generic(data, "oversized-tag", ww)
+                    if out[0] == "ok" and out[2] is not None:
+                        ds = diff_trees(b, mi, base_tree, out[2])
+                        if ds:
+                            res.violation("mismatch-alters-known", [fi.cls_key(), "oversized-tag", "known-field-changed"],
+                                          f"{mi.full_name}: a record whose field number is {hi}+{fi.number} (not a legal number) changed known fields: {ds[0].short()}; input {data.hex()[:200]}", ww)
+
     # (4) field number 0 and groups around known fields ---------------------------
     if only in (None, "zero"):
         for wt in (0, 2):
